@@ -395,3 +395,213 @@ func c13SharedProvider(c *Ctx, r *Result) {
 		r.Floor("R13d-functions", len(order), 40)
 	}
 }
+
+// ---- R15h: a thread whose resume has been used up is examined again ------------------------------
+
+// VisitState drops the interrogation state of a resumed thread when it reaches a node of another
+// line. That node is an arrival at a new line like any other: the function must go on to decide
+// the breakpoint question for it — by visiting the node again, or by reaching the test of the
+// breakpoint table — on every path from the drop to its return.
+func c15ReexamineAfterResume(c *Ctx, r *Result, dbgIface *types.Interface) {
+	fStates := c.Field("interpreter", "ecalDebugger", "interrogationStates")
+	fBreaks := c.Field("interpreter", "ecalDebugger", "breakPoints")
+	if fStates == nil || fBreaks == nil {
+		r.Undecide("R15h: ecalDebugger.interrogationStates / breakPoints not found")
+		return
+	}
+	n := 0
+	for _, fn := range c.Implementations(dbgIface, "VisitState") {
+		if !c.inModule(fn) {
+			continue
+		}
+		key := c.FuncKey(fn)
+		var drops []ssa.Instruction
+		allInstrs(fn, func(in ssa.Instruction) {
+			if isBuiltinCall(in, "delete") {
+				args := in.(ssa.CallInstruction).Common().Args
+				if ld, ok := args[0].(*ssa.UnOp); ok && fieldVar(ld.X) == fStates {
+					drops = append(drops, in)
+				}
+			}
+		})
+		if len(drops) == 0 {
+			continue
+		}
+		fromBreakTable := func(v ssa.Value) bool {
+			found := false
+			seen := map[ssa.Value]bool{}
+			var walk func(v ssa.Value, d int)
+			walk = func(v ssa.Value, d int) {
+				if v == nil || seen[v] || d > 6 || found {
+					return
+				}
+				seen[v] = true
+				switch x := v.(type) {
+				case *ssa.Extract:
+					if lk, ok := x.Tuple.(*ssa.Lookup); ok {
+						if ld, ok := lk.X.(*ssa.UnOp); ok && fieldVar(ld.X) == fBreaks {
+							found = true
+						}
+					}
+				case *ssa.Lookup:
+					if ld, ok := x.X.(*ssa.UnOp); ok && fieldVar(ld.X) == fBreaks {
+						found = true
+					}
+				case *ssa.Phi:
+					for _, e := range x.Edges {
+						walk(e, d+1)
+					}
+				case *ssa.BinOp:
+					walk(x.X, d+1)
+					walk(x.Y, d+1)
+				case *ssa.UnOp:
+					walk(x.X, d+1)
+				}
+			}
+			walk(v, 0)
+			return found
+		}
+		bad := map[ssa.Instruction]bool{}
+		o := &PathOracle{MaxStates: 200000}
+		o.Visit = func(st *PState, in ssa.Instruction) {
+			for i, d := range drops {
+				if in == d {
+					st.Flags[fmt.Sprintf("dropped%d", i)] = true
+				}
+			}
+			anyDropped := false
+			for i := range drops {
+				if st.Flags[fmt.Sprintf("dropped%d", i)] {
+					anyDropped = true
+				}
+			}
+			if !anyDropped {
+				return
+			}
+			re := false
+			switch x := in.(type) {
+			case *ssa.If:
+				re = fromBreakTable(x.Cond)
+			case ssa.CallInstruction:
+				if f := x.Common().StaticCallee(); f == fn {
+					re = true
+				} else if x.Common().IsInvoke() && x.Common().Method.Name() == "VisitState" {
+					re = true
+				}
+			}
+			if re {
+				for i := range drops {
+					delete(st.Flags, fmt.Sprintf("dropped%d", i))
+				}
+			}
+		}
+		o.AtReturn = func(st *PState, ret *ssa.Return) {
+			for i, d := range drops {
+				if st.Flags[fmt.Sprintf("dropped%d", i)] {
+					bad[d] = true
+				}
+			}
+		}
+		if !ExplorePaths(fn, o) {
+			r.Undecide("R15h: path exploration of %s exceeded its bound", key)
+			continue
+		}
+		for i, d := range drops {
+			n++
+			site := fmt.Sprintf("%s#drop#%d", key, i)
+			pos := c.Pos(c.InstrPos(d))
+			if bad[d] {
+				r.Instance("R15h", site, pos, "finding", "the node is not examined for a breakpoint after the resume was used up", true)
+				r.Report(Finding{Rule: "R15h", Site: site, Pos: pos,
+					Msg: key + ": after the interrogation state of a resumed thread is dropped there is a path to the return that neither visits the node again nor reaches the test of the breakpoint table: an active breakpoint on the line just reached (the very next line after a resume) is skipped"})
+			} else {
+				r.Instance("R15h", site, pos, "ok", "every path from the drop re-visits the node or reaches the breakpoint test", true)
+			}
+		}
+	}
+	r.Floor("R15h", n, 1)
+}
+
+// ---- R15i: a continue command addressed to a suspended thread wakes it ---------------------------
+
+// Continue looks the thread up; when it is there and not running, every path to the return must
+// pass the wake-up (running = true and a Broadcast/Signal on its condition). An early return for
+// one kind of command ("nothing to step out of") leaves a thread suspended that was told to go on.
+func c15ContinueWakes(c *Ctx, r *Result, dbgIface *types.Interface) {
+	fStates := c.Field("interpreter", "ecalDebugger", "interrogationStates")
+	fRunning := c.Field("interpreter", "interrogationState", "running")
+	if fStates == nil || fRunning == nil {
+		r.Undecide("R15i: ecalDebugger.interrogationStates / interrogationState.running not found")
+		return
+	}
+	n := 0
+	for _, fn := range c.Implementations(dbgIface, "Continue") {
+		if !c.inModule(fn) {
+			continue
+		}
+		key := c.FuncKey(fn)
+		var okV ssa.Value
+		var runLoads []ssa.Value
+		allInstrs(fn, func(in ssa.Instruction) {
+			switch x := in.(type) {
+			case *ssa.Extract:
+				if lk, ok := x.Tuple.(*ssa.Lookup); ok && x.Index == 1 {
+					if ld, ok := lk.X.(*ssa.UnOp); ok && fieldVar(ld.X) == fStates {
+						okV = x
+					}
+				}
+			case *ssa.UnOp:
+				if x.Op == token.MUL && fieldVar(x.X) == fRunning {
+					runLoads = append(runLoads, x)
+				}
+			}
+		})
+		if okV == nil {
+			continue
+		}
+		n++
+		site := key + "#wake"
+		pos := c.Pos(fn.Pos())
+		bad := false
+		exits := 0
+		o := &PathOracle{}
+		o.Visit = func(st *PState, in ssa.Instruction) {
+			if op, ok := condOpOf(in); ok && (op.Kind == "Broadcast" || op.Kind == "Signal") {
+				st.Flags["woke"] = true
+			}
+		}
+		o.AtReturn = func(st *PState, ret *ssa.Return) {
+			if st.Get(okV, o) != AvNonNil {
+				return
+			}
+			suspended := false
+			for _, rl := range runLoads {
+				if st.Get(rl, o) == AvNil {
+					suspended = true
+				}
+			}
+			if !suspended {
+				return
+			}
+			exits++
+			if !st.Flags["woke"] {
+				bad = true
+			}
+		}
+		if !ExplorePaths(fn, o) {
+			r.Undecide("R15i: path exploration of %s exceeded its bound", key)
+			continue
+		}
+		switch {
+		case exits == 0:
+			r.Undecide("R15i: no path of %s on which the thread is found suspended was explored", key)
+		case bad:
+			r.Instance("R15i", site, pos, "finding", "a path returns without waking the suspended thread", true)
+			r.Report(Finding{Rule: "R15i", Site: site, Pos: pos,
+				Msg: key + ": the thread is found suspended, yet a path returns without the wake-up (Broadcast/Signal on its condition): the continue command is dropped and the thread stays suspended although it was told to go on"})
+		default:
+			r.Instance("R15i", site, pos, "ok", fmt.Sprintf("all %d return paths on which the thread is found suspended pass the wake-up", exits), true)
+		}
+	}
+	r.Floor("R15i", n, 1)
+}
